@@ -86,6 +86,11 @@ theorem accounted_step {v : Variant} {s s' : State} {e : Event} (ha : Accounted 
          simp [State.goto] at this h0 ⊢; omega)
   | swcUp n => simp [step] at h; subst h; simpa [runCount_spawn] using h0
   | swcDown k => simp [step] at h; subst h; exact h0
+  | swcSet c =>
+    simp only [step] at h
+    split at h
+    · simp at h; subst h; simpa [runCount_spawn] using h0
+    · split at h <;> simp at h <;> subst h <;> exact h0
   | swcLock =>
     simp only [step] at h
     split at h <;> simp at h
